@@ -311,9 +311,43 @@ ROOT_SUFFIX = {
 def scaffold_root(ty): return ROOT_SUFFIX[ty]
 
 
+def h_combine_all(vm, mir, tname):
+    """combine_all(r1..rn) == the left fold of the real Combine::combine starting from the real Default::default, ending at the first Err,
+    for an Output type whose default is NOT neutral (WriteValOutput) and for the linter's ListBuilder"""
+    from ..values import It
+    from ..astparse import same_tree
+    n = vm.fork(4, note='n-results')
+    failpos = vm.fork(n + 1, note='fail-at') - 1
+    lb = mir.src.enums['ListBuilder']
+    def mk(i):
+        if tname == 'WriteValOutput': return Adt('WriteValOutput', 0, [ok(UNIT)])
+        return Adt('ListBuilder', lb.index('One'), [100 + i])
+    items = [err(7 + i) if i == failpos else ok(mk(i)) for i in range(n)]
+    d = lambda m: {'output_type': tname, 'results': ['Err' if i == failpos else 'Ok' for i in range(n)]}
+    vm.describe = d
+    T = 'WriteValOutput' if tname == 'WriteValOutput' else 'ListBuilder<u32>'
+    got = conc(vm, vm.run_fn(free_fn(mir, 'combine_all'), [It('list', list(items), 0)], {'T': T, 'E': 'u32', 'I': 'std::vec::IntoIter<std::result::Result<%s, u32>>' % T}))
+    # reference: the stated law, computed with the real default / combine
+    dflt = vm.call(f'<{T} as Default>::default', [], None, None, subst={})
+    acc = dflt; want = None
+    for i in range(n):
+        if i == failpos: want = err(7 + i); break
+        acc = vm.call(f'<{T} as Combine>::combine', [acc, mk(i)], None, None, subst={})
+    if want is None: want = ok(acc)
+    out = []
+    vm.witness = {'fold-done'}
+    diff = same_tree(vm, got, want)
+    if diff:
+        m = model_of(vm)
+        if m is not None: out.append(finding('violation', 'combine_all-law', f'combine_all differs from the left fold starting from the default: {diff}', d(m), vm.notes))
+    return out
+
+
 def jobs(ctx, tier):
     mir = ctx.mir('dev'); js = []
     lm = 2
+    for tname in ('WriteValOutput', 'ListBuilder'):
+        js.append(Job(f'combine_all/{tname}', h_combine_all, (mir, tname), witness=['fold-done'], weight=2, fuel=4_000_000))
     for ty in SCAFFOLD:
         for v in mir.src.enums[ty]:
             w = 6 if ty in ('Statement', 'Expression', 'PrimaryExpression') else 2
